@@ -510,4 +510,58 @@ theorem roundHE_unit {u : ℚ} (h0 : 0 ≤ u) (h1 : u < 1) : roundHE u = 0 ∨ r
   have hf : ⌊u⌋ = 0 := by rw [Int.floor_eq_iff]; constructor <;> push_cast <;> linarith
   rcases roundHE_mem u with e | e <;> rw [e, hf] <;> simp
 
+theorem stochasticRound_pos {x π u : ℚ} (hπ : 0 < π) (hx : π ≤ x) : 0 < stochasticRound x π u := by
+  have h1 : (1 : ℤ) ≤ ⌊x / π⌋ := by
+    rw [Int.le_floor]; push_cast; rw [le_div_iff₀ hπ]; linarith
+  have h1q : (1 : ℚ) ≤ (⌊x / π⌋ : ℚ) := by exact_mod_cast h1
+  have h2q : (⌊x / π⌋ : ℚ) ≤ (⌈x / π⌉ : ℚ) := by exact_mod_cast Int.floor_le_ceil _
+  rcases stochasticRound_mem x π u hπ with e | e <;> rw [e] <;> nlinarith
+
+theorem stochasticRound_neg {x π u : ℚ} (hπ : 0 < π) (hx : x ≤ -π) : stochasticRound x π u < 0 := by
+  have h1 : ⌈x / π⌉ ≤ (-1 : ℤ) := by
+    rw [Int.ceil_le]; push_cast; rw [div_le_iff₀ hπ]; linarith
+  have h1q : (⌈x / π⌉ : ℚ) ≤ (-1 : ℚ) := by exact_mod_cast h1
+  have h2q : (⌊x / π⌋ : ℚ) ≤ (⌈x / π⌉ : ℚ) := by exact_mod_cast Int.floor_le_ceil _
+  rcases stochasticRound_mem x π u hπ with e | e <;> rw [e] <;> nlinarith
+
+theorem sgn_pos {x : ℚ} (h : 0 < x) : sgn x = 1 := by
+  unfold sgn; rw [if_neg (not_lt.mpr h.le), if_pos h]
+theorem sgn_neg {x : ℚ} (h : x < 0) : sgn x = -1 := by
+  unfold sgn; rw [if_pos h]
+
+/-- binary(use_stochastic_rounding): an input with `|x| ≥ f/8` (`f = 2·min(max|x|,1)`) — in
+    particular the codes `±1` — keeps its sign for every pair of draws: the output is exactly
+    what `binary()` without the flag returns. -/
+theorem binary_sign_kept (use01 : Bool) (α x m u1 u2 : ℚ) (hm : 0 < m)
+    (hx : 2 * (if 1 < m then 1 else m) / 8 ≤ |x|) (phase' : Bool) (m' v1 v2 : ℚ) :
+    binaryQ use01 true true α x m u1 u2 = binaryQ use01 false phase' α x m' v1 v2 := by
+  have hf : 0 < 2 * (if 1 < m then 1 else m) := by split <;> linarith
+  generalize hfd : 2 * (if 1 < m then 1 else m) = f at hf hx
+  unfold binaryQ
+  simp only [hfd, Bool.and_self, if_true, roundThrough_train, Bool.false_and, Bool.false_eq_true, if_false]
+  rcases lt_or_ge x 0 with hneg | hpos
+  · rw [abs_of_neg hneg] at hx
+    have h1 : x / f ≤ -(1 / 8) := by rw [div_le_iff₀ hf]; linarith
+    have h2 := stochasticRound_neg (u := u1) (by norm_num : (0 : ℚ) < 1 / 8) h1
+    have h3 : f * stochasticRound (x / f) (1 / 8) u1 < 0 := by nlinarith
+    rw [sgn_neg h3, sgn_neg hneg]
+    cases use01 <;> simp [absR] 
+  · rw [abs_of_nonneg hpos] at hx
+    have hx0 : 0 < x := by nlinarith
+    have h1 : 1 / 8 ≤ x / f := by rw [le_div_iff₀ hf]; linarith
+    have h2 := stochasticRound_pos (u := u1) (by norm_num : (0 : ℚ) < 1 / 8) h1
+    have h3 : 0 < f * stochasticRound (x / f) (1 / 8) u1 := by positivity
+    rw [sgn_pos h3, sgn_pos hx0]
+    cases use01 <;> simp [absR] <;> norm_num
+
+/-- po2: an exact power of two inside the exponent range, below `max_value`, is fixed by every draw u > 0 -/
+theorem po2_clip_code_fixed (c : Po2Cfg) (hs : c.stoch = true) (k : ℤ) (u : ℚ) (hu : 0 < u)
+    (hx : ¬ pow2 k < epsK) (hf : po2Filter c (pow2 k) = pow2 k)
+    (h : LogOK (pow2 k) (roundLog2 (pow2 k + epsK))) :
+    clipPowerOfTwo c true (pow2 k) u = clipI k c.minExp c.maxExp := by
+  unfold clipPowerOfTwo
+  simp only [hs, hx, if_true, if_false, hf, stochasticRoundPo2, absR_nonneg_id (pow2_pos k).le]
+  rw [stochasticRoundPo2Core_eq u (bracket_pow2 k) h]
+  have : pow2 k < pow2 k + u * pow2 k := by have := pow2_pos k; nlinarith
+  simp [this]
 end QKV.Stoch
